@@ -157,6 +157,9 @@ pub fn execute_c12(scn_v: &Value) -> RunReport {
     let mut by_group: BTreeMap<String, (u64, u64, u64)> = BTreeMap::new();
     let (mut pair_total, mut pair_in_order) = (0u64, 0u64);
     let (mut pair_total_off, mut pair_in_order_off) = (0u64, 0u64);
+    // per class of list (1, 2, >= 3 real digests): (lists, expected "first is real", observed
+    // first-is-real, observed last-is-real)
+    let mut pos_stats: BTreeMap<usize, (u64, f64, u64, u64)> = BTreeMap::new();
     let mut first_on: Option<String> = None;
     let n = scn.issuances.max(1);
     for k in 0..n {
@@ -190,6 +193,17 @@ pub fn execute_c12(scn_v: &Value) -> RunReport {
                 }
             }
             let reals: Vec<&String> = o.sd.iter().filter(|d| real.contains(d)).collect();
+            // where the real digests stand among the decoys: in a sorted or shuffled list the
+            // first (last) entry is a real one with probability r / (r + d) — also when there
+            // is a single hidden member, which has no "order" but still a position
+            if !reals.is_empty() && !decoys.is_empty() {
+                let class = reals.len().min(3);
+                let e = pos_stats.entry(class).or_insert((0u64, 0f64, 0u64, 0u64));
+                e.0 += 1;
+                e.1 += reals.len() as f64 / o.sd.len() as f64;
+                e.2 += o.sd.first().map(|d| real.contains(d)).unwrap_or(false) as u64;
+                e.3 += o.sd.last().map(|d| real.contains(d)).unwrap_or(false) as u64;
+            }
             if reals.len() >= 2 {
                 lists += 1;
                 // member order = creation order of the members' disclosures
@@ -269,6 +283,26 @@ pub fn execute_c12(scn_v: &Value) -> RunReport {
             }
             if n_d == n_l {
                 cx.violate("C12", "order-does-not-reveal-decoys", format!("c12:order_decoys_last:{}", class.replace(' ', "_")), BTreeMap::new(), json!({"group": g, "lists": n_l}), scenario.clone());
+            }
+        }
+    }
+    // position of the real digests among the decoys (Hoeffding: a deviation of 3.5 sqrt(T) from
+    // the expectation has probability < 5e-11 for any list sizes)
+    for (class, (t, expect, first, last)) in &pos_stats {
+        if *t >= 50 {
+            cx.rep.count("oracle.c12.position_judged");
+            let bound = 3.5 * (*t as f64).sqrt();
+            for (what, obs) in [("first", *first), ("last", *last)] {
+                if (obs as f64 - expect).abs() > bound {
+                    cx.violate(
+                        "C12",
+                        "order-does-not-reveal-decoys",
+                        format!("c12:position_of_real_digest_biased:{}", what),
+                        BTreeMap::new(),
+                        json!({"lists_with_real_digests": class, "lists": t, "entry": what, "is_real_observed": obs, "is_real_expected": expect}),
+                        scenario.clone(),
+                    );
+                }
             }
         }
     }
@@ -732,6 +766,21 @@ pub fn execute_c14(scn_v: &Value) -> RunReport {
     for (sig, detail) in sa.problems.iter().take(3) {
         cx.violate("C14", "salt-form-and-digest-binding", sig.clone(), BTreeMap::new(), detail.clone(), scenario.clone());
     }
+    // across runs (and so across any number of issuer instances, processes and entropy states)
+    // the supervisor compares these: one 128-bit hash per salt and per decoy digest of both worlds
+    {
+        use sha2::{Digest, Sha256};
+        let mut t = String::with_capacity(32 * (sa.salts.len() + sa.decoys.len() + sb.salts.len() + sb.decoys.len()));
+        for (tag, list) in [("s", &sa.salts), ("d", &sa.decoys), ("s", &sb.salts), ("d", &sb.decoys)] {
+            for x in list.iter() {
+                let h = Sha256::digest(format!("{}:{}", tag, x).as_bytes());
+                for b in &h[..16] {
+                    t.push_str(&format!("{:02x}", b));
+                }
+            }
+        }
+        cx.rep.tokens = t;
+    }
     // pairwise distinctness
     let mut seen: HashSet<&String> = HashSet::new();
     for s in &sa.salts {
@@ -905,13 +954,20 @@ pub fn gen_c16(rng: &mut Rng, _tier: Tier) -> Result<Value, serde_json::Error> {
     }
     // queue comfortably longer than needed (an empty queue panics by design of the mock build)
     let qlen = 400;
-    let queue: Vec<String> = (0..qlen)
-        .map(|i| {
-            let mut b = [0u8; 16];
-            rng.fill(&mut b);
-            format!("{}-{}", model::b64e(&b), i)
-        })
-        .collect();
+    // sometimes a fixture with repeated lines: neighbouring entries are equal (legal input; each
+    // entry is still one salt for one disclosure)
+    let repeats = rng.chance(1, 4);
+    let mut queue: Vec<String> = Vec::with_capacity(qlen);
+    for i in 0..qlen {
+        if repeats && i > 0 && rng.chance(1, 3) {
+            let prev = queue[i - 1].clone();
+            queue.push(prev);
+            continue;
+        }
+        let mut b = [0u8; 16];
+        rng.fill(&mut b);
+        queue.push(format!("{}-{}", model::b64e(&b), i));
+    }
     serde_json::to_value(MockScn { kind: "mock".into(), check: "C16".into(), entropy_seed: rng.next_u64(), clock_base: now, key, queue, issuances })
 }
 
@@ -1114,6 +1170,19 @@ pub fn execute_c16(scn_v: &Value) -> RunReport {
                 }
             }
             consumed += n_j;
+            // equal claims under equal salts are equal disclosures: one digest at two places, which
+            // holder and verifier must refuse — a consequence of the queue, not of the spacing
+            let dup = {
+                let mut ds = m.disclosures.clone();
+                ds.sort();
+                ds.windows(2).any(|w| w[0] == w[1])
+            };
+            if dup {
+                if check {
+                    cx.rep.count("oracle.c16.roundtrip_unasserted_equal_disclosures_from_repeated_salts");
+                }
+                continue;
+            }
             // (value preservation) issue -> present everything -> verify returns U exactly
             let pres = match w.holder_new(n_h, s, is.fmt) {
                 Out::Ok(h) => w.present(n_h, &h, &gen::select_all(&is.claims), None),
